@@ -49,6 +49,7 @@ def _ln_expected(code, version_tuple, which):
 contract(
     "xdis.cross_dis:findlinestarts",
     kind="generator",
+    when=lambda code: not hasattr(code, "co_lines"),
     params={"code": Record(co_lnotab=Bytes(maxlen=8), co_firstlineno=Int(pool=[1, 0, 5, 200, -3]), co_code=Bytes(maxlen=6))},
     configs=dict((k, {"version_tuple": v, "dup_lines": False}) for k, v in LN_VERSIONS.items()),
     yield_seq=2,
